@@ -538,7 +538,7 @@ fn main_alphabet(k: usize) -> Alphabet {
 
 fn run_m(ctx: &Ctx, rep: &mut Report, ch: u8, a: Alphabet, label: &str, props: &[&'static str]) -> ExploreResult {
     let r = explore(MidiM::new(ch, a), &ExploreCfg { max_depth: None, state_cap: 60_000_000, threads: ctx.threads, label: label.to_string() }, rep, props);
-    if !r.fixpoint && !r.cap_hit {
+    if !r.fixpoint && !r.cap_hit && !r.stopped {
         rep.machinery(format!("{}: exploration ended without reaching a fixpoint", label));
     }
     r
@@ -736,7 +736,7 @@ pub fn c05(ctx: &Ctx) -> Report {
         let a = Alphabet { notes: vec![60], vels: vec![100], edge_note: Some(40), modes: true, ..polls(36) };
         let m = MidiM::new(2, a.clone()).observed_edges();
         let r = explore(m, &ExploreCfg { max_depth: None, state_cap: 30_000_000, threads: ctx.threads, label: "edges relative to the observed gate, up to 36 outstanding note-ons".into() }, &mut rep, p);
-        if !r.fixpoint && !r.cap_hit {
+        if !r.fixpoint && !r.cap_hit && !r.stopped {
             rep.machinery("observed-gate exploration ended without a fixpoint".into());
         }
         let a2 = Alphabet { modes: true, ..polls(3) };
@@ -1088,7 +1088,7 @@ pub fn c06(ctx: &Ctx) -> Report {
         }
         let m = FrameM { t: Twin::new(ch), alphabet: std::sync::Arc::new(alpha.clone()), max_held: if thorough { 2 } else { 1 } };
         let r = explore(m, &ExploreCfg { max_depth: None, state_cap: if thorough { 40_000_000 } else { 8_000_000 }, threads: ctx.threads, label: format!("single bytes, channel {}, alphabet of {} bytes", ch, alpha.len()) }, &mut rep, &["C06"]);
-        if !r.fixpoint && !r.cap_hit {
+        if !r.fixpoint && !r.cap_hit && !r.stopped {
             rep.machinery("byte-level exploration ended without a fixpoint".into());
         }
     }
